@@ -129,3 +129,11 @@ def tags(s, res):
 def nontrivial(s, res):
     info = gen.basis_info(s['basis'])
     return info['k'] >= 0 or info['start'] <= s['t'] <= info['end']
+
+
+# --- source-derived tie: basis_eval.pyx is re-translated on every run and proved equal to the model
+from props import _pyx  # noqa: E402
+
+
+def regenerate(sp, lean_dir):
+    return {'source': 'splipy/basis_eval.pyx', 'obligations': _pyx.regenerate_pyx(sp, lean_dir)}
